@@ -4,6 +4,7 @@
 -/
 import Rtp.Proofs.H264Obs
 import Rtp.Proofs.H264Split
+import Rtp.Proofs.H264History
 namespace Rtp.Props.C10
 open Rtp Rtp.Model Rtp.Model.H264 Rtp.Model.H264.Obs Rtp.Spec.Rfc6184 Rtp.Pred Rtp.Proofs.H264
 
@@ -74,5 +75,97 @@ example : ([Item.single [0x65, 1, 2], .stapA 0x78 [[0x67, 9], [0x68, 8, 7]], .fu
 example : encode [Item.single [0x65, 1, 2], .stapA 0x78 [[0x67, 9], [0x68, 8, 7]], .fuA 0x41 [[1, 2], [], [3]]] =
     [[0x65, 1, 2], [0x78, 0, 2, 0x67, 9, 0, 3, 0x68, 8, 7], [0x5C, 0x81, 1, 2], [0x5C, 0x01], [0x5C, 0x41, 3]] := by
   decide
+
+/-! ### c10_shape, c10_roundtrip — payloader → depacketizer, whole histories -/
+
+/-- the hypotheses of C10 on a history of calls: every call has MTU ≥ 3 and carries well-formed
+    units (type 1–23, ≥ 2 bytes, …) behind 3- or 4-byte start codes, or one bare unit.
+    No bound on the number of calls, units, or their sizes; the MTU may change from call to call. -/
+def HistWF (calls : List C10.RtCall) : Prop := ∀ c ∈ calls, callWF c
+
+/-- all payloads of a history on a new H264Payloader, in order -/
+def payloads (disable : Bool) (calls : List C10.RtCall) : List Bytes := fragsCalls disable {} calls
+
+/-- c10_shape.  The payloads of every history PARSE as RFC 6184 units (`Spec.Rfc6184.parse`): each
+    is a single NAL unit packet, a STAP-A, or one of ≥ 2 FU-A fragments with the unit's NRI in the
+    indicator and its type in the header, S only on the first, E only on the last (that is what
+    `parse` accepts and `Item.wf` demands); the units carried are `delivered` (hold-back applied);
+    IsPartitionHead is true exactly on the first payload of each unit. -/
+theorem c10_shape (disable : Bool) (calls : List C10.RtCall) (hw : HistWF calls) :
+    ∃ plan, parse (payloads disable calls) = some plan ∧ plan.all Item.wf = true ∧
+      plan.flatMap Item.nals = delivered disable (calls.flatMap C10.RtCall.nals) ∧
+      (payloads disable calls).map isPartitionHead = plan.flatMap Item.heads := by
+  obtain ⟨plan, e, w, ha, k⟩ := history_plan disable calls hw
+  refine ⟨plan, ?_, w, k, ?_⟩
+  · rw [payloads, e]; exact parse_encode plan w
+  · rw [payloads, e]; exact heads_plan plan w ha
+
+/-- c10_roundtrip.  For every history of calls, feeding all payloads in order to an H264Packet in
+    ANY state (fresh included) yields a value for each payload, and the values concatenate to the
+    start-code- (or length-) framed `delivered` units: AUD and filler dropped, SPS/PPS held back
+    until both are there and released (as one STAP-A, or individually if it does not fit the MTU)
+    in front of the next unit. -/
+theorem c10_roundtrip (disable avc : Bool) (calls : List C10.RtCall) (hw : HistWF calls) (buf : Bytes) :
+    (∀ r ∈ (run avc buf (payloads disable calls)).1, r.isOk = true) ∧
+    (run avc buf (payloads disable calls)).1.flatMap C10.resBytes =
+      frame avc (delivered disable (calls.flatMap C10.RtCall.nals)) := by
+  obtain ⟨plan, e, w, _, k⟩ := history_plan disable calls hw
+  rw [payloads, e, ← k]
+  exact c10_decoder avc plan w buf
+
+/-- c10_lossless.  When parameter sets come as SPS,PPS pairs followed by a unit (or STAP-A is
+    disabled) nothing is lost or reordered: the receiver reproduces exactly the input's units minus
+    AUD/filler, in order. -/
+theorem c10_lossless (disable avc : Bool) (calls : List C10.RtCall) (hw : HistWF calls)
+    (hp : disable = true ∨ paired (calls.flatMap C10.RtCall.nals) = true) :
+    (run avc [] (payloads disable calls)).1.flatMap C10.resBytes =
+      frame avc ((calls.flatMap C10.RtCall.nals).filter (fun n => !isDropped n)) := by
+  rw [(c10_roundtrip disable avc calls hw []).2]
+  congr 1
+  cases disable with
+  | true => simp [delivered]
+  | false =>
+    rcases hp with hp | hp
+    · cases hp
+    · simp only [delivered, Bool.false_eq_true, if_false]
+      exact holdback_paired _ hp
+
+/-- the predicate the harness evaluates on the real payloader and depacketizer (kind `c10.rt`)
+    holds of the model, for every input (on inputs outside the hypotheses it only says "no panic") -/
+theorem c10_rt_pred (i : C10.RtInput) : C10.rtOk i (rtModel i) = true := by
+  obtain ⟨hflat, hlen⟩ := rtCalls_flatten i.disable i.avc {} [] i.calls
+  simp only [C10.rtOk, rtModel, Bool.not_false, Bool.true_and, hlen, beq_self_eq_true,
+    Bool.or_eq_true, Bool.not_eq_true', Bool.and_eq_true]
+  by_cases hwf : i.wf = true
+  · right
+    have hw := callWF_of_wf i hwf
+    obtain ⟨plan, e, w, ha, k⟩ := history_plan i.disable i.calls hw
+    have kexp : plan.flatMap Item.nals = i.expected := by
+      rw [k]; exact expected_of_wf i hwf
+    simp only [C10.RtObs.pkts, hflat]
+    constructor
+    · simp only [C10.shapeOk, observePkts_payload, e, parse_encode plan w, w, kexp, observePkts_head,
+        heads_plan plan w ha, beq_self_eq_true, Bool.and_self]
+    · have hp := run_plan i.avc plan w []
+      have hr := observePkts_res i.avc [] (encode plan)
+      rw [e]
+      exact decodeOk_of_run i.avc _ _ _ hr.1 hp.1 (by rw [hp.2, kexp])
+  · left; simpa using hwf
+
+/-- non-vacuity: SPS, PPS (4-byte codes), IDR in one buffer at MTU 5 — the STAP-A does not fit, the
+    IDR is fragmented; then the same units with SPS and PPS in calls of their own at MTU 1200 -/
+example : (C10.RtInput.wf { disable := false, avc := false, calls :=
+    [{ mtu := 5, bare := false, units := [(true, [0x67, 1, 2]), (true, [0x68, 3]), (false, [0x65, 1, 2, 3, 4, 5, 6])] },
+     { mtu := 1200, bare := true, units := [(false, [0x67, 1, 2])] },
+     { mtu := 1200, bare := true, units := [(false, [0x68, 3])] },
+     { mtu := 1200, bare := false, units := [(false, [0x09, 0x10]), (true, [0x41, 7])] }] }) = true := by
+  decide
+example : payloads false
+    [{ mtu := 5, bare := false, units := [(true, [0x67, 1, 2]), (true, [0x68, 3]), (false, [0x65, 1, 2, 3, 4, 5, 6])] },
+     { mtu := 1200, bare := true, units := [(false, [0x67, 1, 2])] },
+     { mtu := 1200, bare := true, units := [(false, [0x68, 3])] },
+     { mtu := 1200, bare := false, units := [(false, [0x09, 0x10]), (true, [0x41, 7])] }] =
+    [[0x67, 1, 2], [0x68, 3], [0x7C, 0x85, 1, 2, 3], [0x7C, 0x45, 4, 5, 6],
+     [0x78, 0, 3, 0x67, 1, 2, 0, 2, 0x68, 3], [0x41, 7]] := by decide +kernel
 
 end Rtp.Props.C10
